@@ -199,6 +199,7 @@ int main(int argc, char ** argv) {
     for (int k = 0; k < SH[j].nfound; k++) { char arg[40]; int c = atoi(SH[j].fkey[k] + 5); snprintf(arg, sizeof arg, "--tier %s --conf %d", tier ? "thorough" : "quick", c); sq_found(SH[j].fkey[k], arg, "%s", SH[j].found[k]); }
   }
   if (capped) SQ.exhaustive = 0;
+  if (SQ.states == 0) { SQ.engine_error = 1; fprintf(stderr, "ENGINE-ERROR no state explored (configuration too large for unitmc.c REGION_MAX?)\n"); }   /* never report a vacuous run as a pass */
   sq_detail("%d configurations (capacity x prologue x owner program x thief program(s) x memory model), each explored exhaustively; %ld capped; terminal states checked by the oracle: %ld", NCONF, capped, SQ.distinct);
   for (int i = 0; i < 3 && i < NCONF; i++) { conf_t * cf = &CONFS[(i * 7919) % NCONF]; sq_sample("%s cap=%d prologue='%s' owner='%s' thief='%s'%s%s", cf->mm ? "TSO" : "SC", cf->cap, cf->pro, cf->own, cf->th1, cf->th2 ? " thief2=" : "", cf->th2 ? cf->th2 : ""); }
   return sq_end(stats);
